@@ -228,7 +228,7 @@ def generate(rng, prefix="", n_funcs=None, with_main=True, rich=True):
              "flag", "printv", "len", "guard", "eprint"]
     if not words:
         kinds.remove("word")
-    kinds += ["sizeof", "noop", "noop", "sizedptr", "grid", "shared_text"]
+    kinds += ["sizeof", "sizeof", "sizeof", "noop", "noop", "sizedptr", "grid", "shared_text"]
     if warrays:
         kinds.append("wordarr")
     if opaque:
@@ -551,6 +551,8 @@ LAYOUTS = [
     ["one/main.pn", "two/part.pn", "one/part.pn", "two/sub/part.pn"],
     # the same base name nested below its sibling
     ["app/main.pn", "app/plugins/config.pn", "app/config.pn", "lib/config.pn"],
+    # the same name at the root and next to the importer (the root one wins)
+    ["app/main.pn", "shared.pn", "app/shared.pn", "app/other.pn"],
     # run from a sub-directory: files of other directories are named `../...`
     # on the command line and in the imports (cwd "app", see CWD_OF_LAYOUT)
     ["main.pn", "../common/util.pn", "../common/deep/m2.pn", "local/m3.pn"],
@@ -975,12 +977,23 @@ def ordered_file_map(sp, item_order):
         rest = [it.name for it in P.items if sp.assign[it.name] == m and it.name not in order]
         names = order + rest
         imports = []
+        repeats = []
         for t in list(sp.imports[m]):
             path = sp.import_style.get((m, t), sp.files[t])
             imports.append('import "%s";\n' % path)
             if (m, t) in sp.dup_imports:
-                imports.append('import "%s";\n' % path)
-        text = "".join(imports) + "\n" + "\n".join(P.by_name[n].text(n in sp.pub) for n in names)
+                repeats.append('import "%s";\n' % path)
+        imports += repeats      # a repeated import comes after the other imports, not next to its twin
+        late = item_order.get("late_imports", {}).get(str(m), 0)
+        bodies = [P.by_name[n].text(n in sp.pub) for n in names]
+        if late and imports and bodies:
+            # `import` is a declaration like any other: the last `late` of them
+            # stand below the module's first own declaration
+            late = min(late, len(imports))
+            head, tail = imports[:len(imports) - late], imports[len(imports) - late:]
+            text = "".join(head) + "\n" + bodies[0] + "\n" + "".join(tail) + "\n" + "\n".join(bodies[1:])
+        else:
+            text = "".join(imports) + "\n" + "\n".join(bodies)
         for old, new in sp.renames.get(m, {}).items():
             text = rename_ident(text, old, new)
         if not names:
